@@ -2254,7 +2254,9 @@ def _set(
                 self._tensordict.del_(key)
             self._non_tensordict[key] = value
         else:
-            if inplace:
+            if inplace and non_tensor:
+                # (a tensor or tensor collection is updated in place by set_tensor, as
+                # TensorDict.set(..., inplace=True) does; non-tensor data has no in-place update)
                 if key in self._tensordict.keys():
                     raise RuntimeError(
                         f"Cannot update an existing entry of type {type(self._tensordict.get(key))} with a value of type {value_type}."
